@@ -689,7 +689,10 @@ impl<'a, R: ?Sized + std::io::BufRead> Tokenizer<'a, R> {
                     if nesting_count == 0 {
                         break;
                     }
-                    state.append_char(self.next_char()?.unwrap());
+                    state.append_char(
+                        self.next_char()?
+                            .ok_or(TokenizerError::UnterminatedExpansion)?,
+                    );
                 }
                 TokenEndReason::EndOfInput => {
                     return Err(TokenizerError::UnterminatedExpansion);
@@ -698,7 +701,10 @@ impl<'a, R: ?Sized + std::io::BufRead> Tokenizer<'a, R> {
             }
         }
 
-        state.append_char(self.next_char()?.unwrap());
+        state.append_char(
+            self.next_char()?
+                .ok_or(TokenizerError::UnterminatedExpansion)?,
+        );
         Ok(())
     }
 
